@@ -1,6 +1,7 @@
 import KoordVerif.Model.C11
 import KoordVerif.Proofs.C11Loop
 import KoordVerif.Proofs.C11Order
+import KoordVerif.Proofs.C11Sort
 /-
 C11 — property theorems (DESIGN.md §4 C11).
 
@@ -120,5 +121,108 @@ example :
        { target := 1, toRelease := [(0, 12)], fn := [(0, 0)], pods := [⟨2, [6]⟩, ⟨3, [9]⟩] }]
     ((killAndEvict (fun p => p = 1) [false, true, true] tasks).logRev.reverse.map (fun ev => (ev.task, ev.e.pod, ev.kind)))
       = [(0, 0, .fail), (0, 1, .pending), (0, 2, .ok), (1, 3, .ok)] := by decide
+
+/-! ## Part B — who may be a victim, and in which order (memoryevict / cpuevict selection) -/
+
+/-- eligibility of the priority-based policies as the property states it (plus the two
+    implementation filters: active phase and a usage metric). -/
+def PrioEligible (threshold : Int) (p : Pod) (pr : Int) : Prop :=
+  p.effPrio = some pr ∧ pr ≤ threshold ∧ p.evictLbl = true ∧ policyAllowed p.policy = true ∧
+  p.active = true ∧ p.hasMetric = true
+
+theorem prioInfo_some_iff (threshold : Int) (p : Pod) (i : Info) :
+    prioInfo? threshold p = some i ↔
+      (∃ pr, PrioEligible threshold p pr ∧
+        i = { pod := p, prio := pr, labelPrio := p.labelPrio.getD pr, evictPrio := p.evictPrio,
+              used := p.used, request := p.request, usageKey := 0 }) := by
+  unfold prioInfo? PrioEligible
+  cases hp : p.effPrio with
+  | none => simp
+  | some pr =>
+    by_cases h1 : p.active = true <;> by_cases h2 : policyAllowed p.policy = true <;>
+      by_cases h3 : pr > threshold <;> by_cases h4 : p.evictLbl = true <;>
+      by_cases h5 : p.hasMetric = true <;> simp [h1, h2, h3, h4, h5, eq_comm] <;> first | omega | exact ⟨fun h => ⟨pr, ⟨rfl, by omega⟩, h⟩, fun ⟨_, ⟨e, _⟩, h⟩ => e ▸ h⟩
+
+/-! ### B.1 victims_eligible — every pod of a priority-based victim list has priority not above the
+    threshold, eviction enabled, and has not opted out of the evaluated policy; and conversely every
+    such (active, measured) pod is listed. -/
+theorem prio_victims_eligible (threshold : Int) (byReq : Bool) (pods : List Pod) (i : Info) :
+    i ∈ selectPrio threshold byReq pods ↔
+      ∃ p ∈ pods, ∃ pr, PrioEligible threshold p pr ∧
+        i = { pod := p, prio := pr, labelPrio := p.labelPrio.getD pr, evictPrio := p.evictPrio,
+              used := p.used, request := p.request, usageKey := 0 } := by
+  unfold selectPrio
+  rw [mem_isort, List.mem_filterMap]
+  constructor
+  · rintro ⟨p, hp, h⟩; exact ⟨p, hp, (prioInfo_some_iff threshold p i).mp h⟩
+  · rintro ⟨p, hp, h⟩; exact ⟨p, hp, (prioInfo_some_iff threshold p i).mpr h⟩
+
+/-- every pod of a best-effort victim list (memory or CPU) is QoS BE and has not opted out. -/
+theorem be_victims_eligible (usage : Int → Int → Int) (pods : List Pod) (i : Info)
+    (h : i ∈ selectBEMem pods ∨ i ∈ selectBECpu usage pods) :
+    i.pod ∈ pods ∧ i.pod.qosBE = true ∧ policyAllowed i.pod.policy = true := by
+  have key : ∀ (u : Int → Int → Int) (d : Int) (c : Bool) (p : Pod), beInfo? u d c p = some i →
+      i.pod = p ∧ p.qosBE = true ∧ policyAllowed p.policy = true := by
+    intro u d c p hp
+    unfold beInfo? at hp
+    by_cases h1 : p.qosBE = true <;> by_cases h2 : policyAllowed p.policy = true <;> simp [h1, h2] at hp
+    subst hp; exact ⟨rfl, h1, h2⟩
+  rcases h with h | h
+  · unfold selectBEMem at h
+    rw [mem_isort, List.mem_filterMap] at h
+    obtain ⟨p, hp, hi⟩ := h
+    obtain ⟨e1, e2, e3⟩ := key _ _ _ p hi
+    exact ⟨e1 ▸ hp, e1 ▸ e2, e1 ▸ e3⟩
+  · unfold selectBECpu at h
+    rw [mem_isort, List.mem_filterMap] at h
+    obtain ⟨p, hp, hi⟩ := h
+    obtain ⟨e1, e2, e3⟩ := key _ _ _ p hi
+    exact ⟨e1 ▸ hp, e1 ▸ e2, e1 ▸ e3⟩
+
+/-! ### B.2 published order — in a priority-based victim list an earlier pod never comes after a later
+    one in (eviction priority ↑, priority ↑, priority label ↑, usage or request ↓). -/
+theorem prio_list_in_published_order (threshold : Int) (byReq : Bool) (pods : List Pod) :
+    (selectPrio threshold byReq pods).Pairwise fun a b =>
+      a.evictPrio < b.evictPrio ∨ (a.evictPrio = b.evictPrio ∧
+        (a.prio < b.prio ∨ (a.prio = b.prio ∧
+          (a.labelPrio < b.labelPrio ∨ (a.labelPrio = b.labelPrio ∧ subKey byReq b ≤ subKey byReq a))))) := by
+  unfold selectPrio
+  refine List.Pairwise.imp ?_ (isort_sorted (prioLess_swo byReq) _)
+  intro a b hba
+  have h : ¬ _ := fun h => by rw [(prioLess_iff byReq b a).mpr h] at hba; cases hba
+  omega
+
+/-- BE lists: full statement (sortedness w.r.t. (spec.priority ↑, usage ↓ / usage-ratio ↓) when all
+    listed pods carry a spec.priority) is NOT proved here; what is proved for them is eligibility
+    (above) and that sorting only permutes: -/
+theorem be_list_is_permutation_partial (usage : Int → Int → Int) (pods : List Pod) (i : Info) :
+    (i ∈ selectBEMem pods ↔ i ∈ pods.filterMap (beInfo? (fun _ _ => 0) 1000 false)) ∧
+    (i ∈ selectBECpu usage pods ↔ i ∈ pods.filterMap (beInfo? usage 1 true)) := by
+  unfold selectBEMem selectBECpu
+  exact ⟨mem_isort _ _ _, mem_isort _ _ _⟩
+
+/-! ### B.7 release target by used-threshold (integer part) -/
+theorem target_none_iff_below_threshold (capacity used threshold : Int) (lower : Option Int) (buffer : Int) :
+    usedThresholdTarget capacity used threshold lower buffer = none ↔
+      Int.tdiv (used * 100) capacity < threshold := by
+  unfold usedThresholdTarget
+  by_cases h : Int.tdiv (used * 100) capacity < threshold <;> simp [h]
+
+theorem target_formula (capacity used threshold : Int) (lower : Option Int) (buffer v : Int)
+    (h : usedThresholdTarget capacity used threshold lower buffer = some v) :
+    v = Int.tdiv (capacity * (Int.tdiv (used * 100) capacity - lower.getD (threshold - buffer))) 100 := by
+  unfold usedThresholdTarget at h
+  by_cases h1 : Int.tdiv (used * 100) capacity < threshold <;> simp [h1] at h
+  exact h.symm
+
+/-- non-vacuity of Part B: two eligible pods ordered by eviction priority, one pod above the
+    threshold and one opted out are dropped. -/
+example :
+    let mk (id : Nat) (pr ep : Int) (pol : PolicyAnno) : Pod :=
+      { id := id, name := id, qosBE := false, active := true, policy := pol, specPrio := some pr,
+        effPrio := some pr, evictLbl := true, evictPrio := ep, labelPrio := none, hasMetric := true,
+        used := 1000, request := 1, batchReq := 0 }
+    (selectPrio 5999 false [mk 0 5500 1 .absent, mk 1 9500 0 .absent, mk 2 5500 0 .others, mk 3 5600 (-1) .lists]).map (·.pod.id)
+      = [3, 0] := by decide
 
 end KoordVerif.C11
